@@ -30,6 +30,11 @@ def gen_system(rng, natoms, nshells, necps, lmax=1, far=False, screened=False):
     while True:
         sh = [rng.randrange(natoms) for _ in range(nshells)]
         ec = [rng.randrange(natoms) for _ in range(necps)]
+        if screened:
+            # shells grouped by atom, two or three per atom, so that a tight shell is followed by a diffuse one on the same atom (and
+            # the other way round): a screening decision taken for one shell must not be reused for its neighbours on the atom
+            sh = [a for a in range(natoms) for _ in range(rng.choice([2, 3]))]
+            ec = [rng.randrange(natoms) for _ in range(necps)]
         if len(set(sh) | set(ec)) == natoms:
             break
     pos = []
@@ -47,7 +52,10 @@ def gen_system(rng, natoms, nshells, necps, lmax=1, far=False, screened=False):
             # atoms 7-10 bohr apart carrying tight AND diffuse shells (in either order): the shell/ECP distance screen of
             # compute_integrals keeps some (shell, ECP) pairs of an atom and drops others
             np_ = 1
-            ex = rng.choice([10 ** rng.uniform(1.2, 1.9), 10 ** rng.uniform(-1.0, -0.4), 10 ** rng.uniform(-0.2, 0.5)])
+            k = len(shells)
+            first_on_atom = k == 0 or sh[k - 1] != a
+            tight_first = (a + natoms) % 2 == 0
+            ex = 10 ** rng.uniform(1.2, 1.9) if first_on_atom == tight_first else rng.choice([10 ** rng.uniform(-1.0, -0.4), 10 ** rng.uniform(-0.2, 0.5)])
             prims = "%r %r" % (round(ex, 4), round(rng.choice([-1, 1]) * rng.uniform(0.3, 1.2), 4))
         else:
             prims = " ".join("%r %r" % (round(10 ** rng.uniform(-0.4, 0.7), 4), round(rng.choice([-1, 1]) * rng.uniform(0.3, 1.2), 4)) for _ in range(np_))
